@@ -26,6 +26,13 @@ Theorem rpc_own_response :
 Proof. exact own_response_all. Qed.
 Print Assumptions rpc_own_response.
 
+Theorem rpc_request_tag :
+  forall calls script es s,
+    run_events (init true calls script) es = Some s ->
+    forall t tag size ret now, In (TvWrite t tag size ret now) (s_trace s) -> tag = c_tag0 (s_ctx s t).
+Proof. exact request_tag_all. Qed.
+Print Assumptions rpc_request_tag.
+
 Theorem rpc_failure_isolated :
   forall calls script es s,
     run_events (init true calls script) es = Some s ->
